@@ -1,6 +1,7 @@
 package kmipserver
 
 import (
+	"reflect"
 	"context"
 	"errors"
 	"fmt"
@@ -45,7 +46,14 @@ func HandleFunc[Req, Resp kmip.OperationPayload](h func(ctx context.Context, req
 			// TODO: Should probably be a panic here as this can only be caused by a programming error.
 			return nil, errors.New("Invalid payload")
 		}
-		return h(ctx, payload)
+		resp, err := h(ctx, payload)
+		if v := reflect.ValueOf(resp); !v.IsValid() || (v.Kind() == reflect.Pointer && v.IsNil()) {
+			// A handler returning a nil *T (typically together with its error) must not
+			// leave a non-nil interface holding a nil pointer in the response item: the
+			// encoder would call the payload's methods on it.
+			return nil, err
+		}
+		return resp, err
 	})
 }
 
